@@ -70,6 +70,8 @@ class StackGen:
         cap = rng.randint(1, 9)
         ex = rng.choice(FACTORS)
         ops = [f"new cap={cap} exp={ex}"]
+        if rng.random() < 0.12:
+            ops = ["new_default"]      # C-library allocator triple (capacity 8, factor 2)
         L = {0: []}
         length = rng.randint(1, 70)
         table = [("push", 12), ("pop", 8), ("peek", 3), ("size", 1), ("map", 1), ("filter_mut", 1), ("mk_filter", 1.5),
